@@ -230,33 +230,70 @@ class Engine:
         raise SolverUnknown('prove')
 
     def preferred_model(self, prefs):
-        """A model of the CURRENT path condition that satisfies as many of the soft constraints `prefs` (SBool | z3
-        expr | bool, in priority order) as one greedy pass allows.  Never constrains the path (push/pop); a soft
-        constraint the solver cannot add (unsat or unknown) is skipped.  Used for *preferred witnesses* (C13: the
-        hostile rendering witness); verdicts never depend on it."""
+        """A model of the CURRENT path condition that satisfies as many soft constraints as a greedy pass allows.
+        `prefs`: list of alternatives tuples (SBool | z3 expr | bool, most wanted first); for each entry the first
+        alternative that is still satisfiable together with what was already granted is added.  Entries are tried
+        jointly first and split on failure (few solver calls when most are compatible).  Never constrains the path
+        (push/pop); unsat/unknown soft constraints are skipped.  Used for *preferred witnesses* (C13: the hostile
+        rendering witness); verdicts never depend on it."""
         s = self.solver
-        m = self.get_model()
+        state = {'m': self.get_model()}
+
+        def expr(p):
+            e = p.e if _isinstance(p, SBool) else p
+            if e is True:
+                return z3.BoolVal(True)
+            if e is False:
+                return z3.BoolVal(False)
+            return e
+
+        def holds(e):
+            try:
+                return z3.is_true(state['m'].eval(e, model_completion=True))
+            except z3.Z3Exception:
+                return False
+
+        def ask(es):
+            if all(holds(e) for e in es):
+                return True
+            t = time.time()
+            r = s.check(*es)
+            self.solver_s += time.time() - t
+            key = 'soft-' + str(r)
+            self.queries[key] = self.queries.get(key, 0) + 1
+            if r == z3.sat:
+                state['m'] = s.model()
+                return True
+            return False
+
+        def grant(entries):
+            if not entries:
+                return
+            first = [e[0] for e in entries]
+            if ask(first):
+                for e in first:
+                    s.add(e)
+                return
+            if _len(entries) == 1:
+                for alt in entries[0][1:]:
+                    if ask([alt]):
+                        s.add(alt)
+                        return
+                return
+            mid = _len(entries) // 2
+            grant(entries[:mid])
+            grant(entries[mid:])
+
+        entries = []
+        for p in prefs:
+            alts = p if _isinstance(p, (tuple, list)) else (p,)
+            alts = [expr(a) for a in alts]
+            if alts:
+                entries.append(alts)
         s.push()
         try:
-            for p in prefs:
-                e = p.e if _isinstance(p, SBool) else p
-                if e is True or e is False:
-                    continue
-                try:
-                    if z3.is_true(m.eval(e, model_completion=True)):
-                        s.add(e)
-                        continue
-                except z3.Z3Exception:
-                    pass
-                t = time.time()
-                r = s.check(e)
-                self.solver_s += time.time() - t
-                key = 'soft-' + str(r)
-                self.queries[key] = self.queries.get(key, 0) + 1
-                if r == z3.sat:
-                    m = s.model()
-                    s.add(e)
-            return self.model_dict(m)
+            grant(entries)
+            return self.model_dict(state['m'])
         finally:
             s.pop()
 
